@@ -546,7 +546,18 @@ func (b *txBuilder) data(spec *TxSpec, sender types.Address) (interface{}, map[s
 		setAmt("min1", d.MinimumVolume1)
 		return d, abs
 	case "SellSwapPool":
-		d := transaction.SellSwapPoolDataV260{Coins: b.coins(a["coins"]), ValueToSell: b.amt(a["value"]), MinimumValueToBuy: b.amt(a["min"])}
+		d := transaction.SellSwapPoolDataV260{Coins: b.coins(a["coins"]), ValueToSell: b.amt(a["value"])}
+		if q, ok := a["min"].(string); !ok || !strings.HasPrefix(q, "quote:") {
+			d.MinimumValueToBuy = b.amt(a["min"])
+		}
+		if q, ok := a["min"].(string); ok && strings.HasPrefix(q, "quote:") {
+			// a tight limit: the route's output on the current reserves (what an estimate gives), scaled by permille
+			if v := b.routeQuote(d.Coins, d.ValueToSell, true); v != nil {
+				d.MinimumValueToBuy = scalePermille(v, q[6:])
+			} else {
+				d.MinimumValueToBuy = big.NewInt(0)
+			}
+		}
 		if f, ok := a["fill"].(map[string]interface{}); ok && len(d.Coins) == 2 {
 			// the amount is found by searching the node's own order-book calculator (see sellTarget)
 			if v := b.sellTarget(d.Coins[0], d.Coins[1], f); v != nil {
@@ -558,7 +569,16 @@ func (b *txBuilder) data(spec *TxSpec, sender types.Address) (interface{}, map[s
 		setAmt("min", d.MinimumValueToBuy)
 		return d, abs
 	case "BuySwapPool":
-		d := transaction.BuySwapPoolDataV260{Coins: b.coins(a["coins"]), ValueToBuy: b.amt(a["value"]), MaximumValueToSell: b.amt(a["max"])}
+		d := transaction.BuySwapPoolDataV260{Coins: b.coins(a["coins"]), ValueToBuy: b.amt(a["value"])}
+		if q, ok := a["max"].(string); ok && strings.HasPrefix(q, "quote:") {
+			if v := b.routeQuote(d.Coins, d.ValueToBuy, false); v != nil {
+				d.MaximumValueToSell = scalePermille(v, q[6:])
+			} else {
+				d.MaximumValueToSell = new(big.Int).Mul(b.unit, big.NewInt(100000000))
+			}
+		} else {
+			d.MaximumValueToSell = b.amt(a["max"])
+		}
 		abs["coins"] = coinStrs(d.Coins)
 		setAmt("value", d.ValueToBuy)
 		setAmt("max", d.MaximumValueToSell)
@@ -767,4 +787,51 @@ func (b *txBuilder) sellTarget(c0, c1 types.CoinID, f map[string]interface{}) *b
 		hi = new(big.Int).Add(hi, b.amt(e))
 	}
 	return hi
+}
+
+func scalePermille(v *big.Int, permille string) *big.Int {
+	p, err := strconv.ParseInt(permille, 10, 64)
+	if err != nil {
+		p = 1000
+	}
+	out := new(big.Int).Mul(v, big.NewInt(p))
+	return out.Div(out, big.NewInt(1000))
+}
+
+// routeQuote walks a pool route on the current reserves and order books (the read-only calculators the estimate API uses):
+// sell=true: output of selling `amount` of coins[0] along the route; sell=false: input needed to buy `amount` of the last coin.
+func (b *txBuilder) routeQuote(coins []types.CoinID, amount *big.Int, sell bool) (res *big.Int) {
+	defer func() {
+		if recover() != nil {
+			res = nil
+		}
+	}()
+	if len(coins) < 2 || amount.Sign() <= 0 {
+		return nil
+	}
+	v := new(big.Int).Set(amount)
+	if sell {
+		for i := 0; i+1 < len(coins); i++ {
+			pair := b.cs.Swap().GetSwapper(coins[i], coins[i+1])
+			if pair == nil || !pair.Exists() {
+				return nil
+			}
+			v, _ = pair.CalculateBuyForSellWithOrders(v)
+			if v == nil || v.Sign() <= 0 {
+				return nil
+			}
+		}
+		return v
+	}
+	for i := len(coins) - 1; i > 0; i-- {
+		pair := b.cs.Swap().GetSwapper(coins[i-1], coins[i])
+		if pair == nil || !pair.Exists() {
+			return nil
+		}
+		v, _ = pair.CalculateSellForBuyWithOrders(v)
+		if v == nil || v.Sign() <= 0 {
+			return nil
+		}
+	}
+	return v
 }
